@@ -646,22 +646,22 @@ tokenLoop:
 				return Date{}, err
 			}
 		case timescanner.FULL_ISO_YEAR, timescanner.FULL_ISO_YEAR_ZERO_PADDED:
-			err = parseDateISOYear(formatString, input, &currentInput, &tmp, false)
+			err = parseDateISOYear(formatString, input, &currentInput, &tmp, false, temporalNextTokenIsNotDigit(scanner))
 			if !err.IsUndefined() {
 				return Date{}, err
 			}
 		case timescanner.FULL_ISO_YEAR_SPACE_PADDED:
-			err = parseDateISOYear(formatString, input, &currentInput, &tmp, true)
+			err = parseDateISOYear(formatString, input, &currentInput, &tmp, true, temporalNextTokenIsNotDigit(scanner))
 			if !err.IsUndefined() {
 				return Date{}, err
 			}
 		case timescanner.FULL_YEAR, timescanner.FULL_YEAR_ZERO_PADDED:
-			err = parseDateYear(formatString, input, &currentInput, &tmp, false)
+			err = parseDateYear(formatString, input, &currentInput, &tmp, false, temporalNextTokenIsNotDigit(scanner))
 			if !err.IsUndefined() {
 				return Date{}, err
 			}
 		case timescanner.FULL_YEAR_SPACE_PADDED:
-			err = parseDateYear(formatString, input, &currentInput, &tmp, true)
+			err = parseDateYear(formatString, input, &currentInput, &tmp, true, temporalNextTokenIsNotDigit(scanner))
 			if !err.IsUndefined() {
 				return Date{}, err
 			}
@@ -834,7 +834,7 @@ func parseDate(formatString, input string, currentInput *string, tmp *tmpDate) (
 }
 
 func parseISO8601Date(formatString, input string, currentInput *string, tmp *tmpDate) (err Value) {
-	err = parseDateYear(formatString, input, currentInput, tmp, false)
+	err = parseDateYear(formatString, input, currentInput, tmp, false, true)
 	if !err.IsUndefined() {
 		return err
 	}
@@ -1357,10 +1357,65 @@ func parseDateCentury(formatString, input string, currentInput *string, result *
 	return Undefined
 }
 
-func parseDateYear(formatString, input string, currentInput *string, result *tmpDate, spacePadded bool) Value {
+// Reports whether the token that follows the current one in the format string
+// cannot begin with a digit, so a number of any length can be read unambiguously.
+func temporalNextTokenIsNotDigit(scanner *timescanner.Timescanner) bool {
+	peek := *scanner
+	token, value := peek.Next()
+	switch token {
+	case timescanner.END_OF_FILE, timescanner.PERCENT, timescanner.NEWLINE, timescanner.TAB:
+		return true
+	case timescanner.TEXT:
+		return len(value) > 0 && (value[0] < '0' || value[0] > '9')
+	default:
+		return false
+	}
+}
+
+// Parses a year as printed by `Format`: optional padding spaces, an optional minus sign
+// and at least one digit. Spaces, sign and digits take up to 4 characters in total,
+// or up to 8 (enough for every representable year) when `greedy` is set.
+func parseTemporalYearDigitsOk(s string, spacePadded, greedy bool) (int, string, bool) {
+	maxChars := 4
+	if greedy {
+		maxChars = 8
+	}
+
+	i := 0
+	if spacePadded {
+		for ; i < len(s) && i < maxChars && s[i] == ' '; i++ {
+		}
+	}
+
+	negative := false
+	if i < len(s) && i < maxChars && s[i] == '-' {
+		negative = true
+		i++
+	}
+
+	n := 0
+	start := i
+	for ; i < len(s) && i < maxChars; i++ {
+		ch := s[i]
+		if ch < '0' || ch > '9' {
+			break
+		}
+		n = n*10 + int(ch-'0')
+	}
+	if i == start {
+		return -1, "", false
+	}
+	if negative {
+		n = -n
+	}
+
+	return n, s[i:], true
+}
+
+func parseDateYear(formatString, input string, currentInput *string, result *tmpDate, spacePadded, greedy bool) Value {
 	var n int
 	var ok bool
-	n, *currentInput, ok = parseTemporalDigitsOk(*currentInput, 4, spacePadded)
+	n, *currentInput, ok = parseTemporalYearDigitsOk(*currentInput, spacePadded, greedy)
 	if !ok {
 		return Ref(NewIncompatibleDateFormatError(formatString, input))
 	}
@@ -1371,10 +1426,10 @@ func parseDateYear(formatString, input string, currentInput *string, result *tmp
 	return Undefined
 }
 
-func parseDateISOYear(formatString, input string, currentInput *string, result *tmpDate, spacePadded bool) Value {
+func parseDateISOYear(formatString, input string, currentInput *string, result *tmpDate, spacePadded, greedy bool) Value {
 	var n int
 	var ok bool
-	n, *currentInput, ok = parseTemporalDigitsOk(*currentInput, 4, spacePadded)
+	n, *currentInput, ok = parseTemporalYearDigitsOk(*currentInput, spacePadded, greedy)
 	if !ok {
 		return Ref(NewIncompatibleDateFormatError(formatString, input))
 	}
